@@ -187,6 +187,18 @@ class Unsigned(BitVector):
             rhs = -(rhs % 2**self.width)
 
         else:
+            if not isinstance(rhs, Unsigned):
+                return NotImplemented
+
+            # negate in the width of the result, otherwise the two's
+            # complement of a narrower operand would be zero extended
+            result_width = (
+                max(self.width, rhs.width) if target_width is None else target_width
+            )
+
+            if rhs.width < result_width:
+                rhs = rhs.resize(result_width)
+
             rhs = -rhs
 
         return self.add(rhs, target_width)
